@@ -30,6 +30,7 @@ var accessorTable = []accessorRow{
 	{"StringValue", "WireTypeLengthDelimited", "", "", ""},
 	{"StringValues", "WireTypeLengthDelimited", "", "", ""},
 	{"BytesValue", "WireTypeLengthDelimited", "", "", ""},
+	{"BytesValues", "WireTypeLengthDelimited", "", "", ""},
 	{"UInt32Value", "WireTypeVarint", "varint", "uint32", "(*Decoder).DecodeUInt32"},
 	{"UInt32Values", "WireTypeVarint", "varint", "uint32", "(*Decoder).DecodeUInt32"},
 	{"Int32Value", "WireTypeVarint", "varint", "int32", "(*Decoder).DecodeInt32"},
@@ -99,7 +100,19 @@ func checkAccessorTable(r *core.Result, prog *core.Program, lp *packages.Package
 			return true
 		})
 		if helper == nil || len(helper.Args) < 3 {
-			r.Ob("A-wire", "(*FieldData)."+row.name, pos, false, "accessor does not go through scalarValue/sliceValue")
+			// length-delimited list accessors map the occurrences one-to-one and test the wire type themselves (rule A-ld)
+			direct := false
+			if row.wire == "WireTypeLengthDelimited" && strings.HasSuffix(row.name, "Values") {
+				ast.Inspect(f.Decl.Body, func(nn ast.Node) bool {
+					if is, ok := nn.(*ast.IfStmt); ok {
+						if b, ok := is.Cond.(*ast.BinaryExpr); ok && b.Op == token.NEQ && strings.HasSuffix(types.ExprString(b.X), ".wt") && strings.HasSuffix(types.ExprString(b.Y), row.wire) && returnsError(info, is.Body.List) {
+							direct = true
+						}
+					}
+					return true
+				})
+			}
+			r.Ob("A-wire", "(*FieldData)."+row.name, pos, direct, "accessor neither goes through scalarValue/sliceValue nor tests fd.wt against "+row.wire+" itself")
 			continue
 		}
 		wt := types.ExprString(helper.Args[1])
@@ -507,6 +520,7 @@ func use(b []byte) int {
 	return r.x
 }`, func(fr *core.Result, fprog *core.Program, fpk *packages.Package) { checkNilResults(fr, fprog, fpk) })
 	checkLazyBitAgreement(r, prog, prog.Pkg(""), lp, r.Tier == "thorough")
+	checkLengthDelimitedSlices(r, prog, lp)
 	ns2 := checkLazySorted(r, prog, lp)
 	r.Floor("binary-searched tag tables", ns2, 2)
 	nn := checkNestedWire(r, prog, lp)
@@ -611,4 +625,53 @@ func checkNestedWire(r *core.Result, prog *core.Program, lp *packages.Package) i
 		})
 	}
 	return n
+}
+
+// checkLengthDelimitedSlices (A-ld): StringValues / BytesValues return one element per recorded occurrence. Every
+// occurrence of a length-delimited field is one value (there is no packed form), an empty one included, so these
+// accessors must (1) test the recorded wire type and (2) map fd.data one-to-one; the splitting helper sliceValue
+// walks inside each occurrence and yields nothing for an empty one.
+func checkLengthDelimitedSlices(r *core.Result, prog *core.Program, lp *packages.Package) {
+	info := lp.TypesInfo
+	for _, name := range []string{"StringValues", "BytesValues"} {
+		f := core.FindFunc(lp, "(*FieldData)."+name)
+		if f == nil {
+			r.Fail("anchor", "(*FieldData)."+name, "", "accessor not found")
+			continue
+		}
+		usesSplit, wtTest, oneToOne := false, false, false
+		ast.Inspect(f.Decl.Body, func(n ast.Node) bool {
+			switch x := n.(type) {
+			case *ast.CallExpr:
+				if fn := staticCallee(info, x); fn != nil && fn.Name() == "sliceValue" {
+					usesSplit = true
+				}
+			case *ast.IfStmt:
+				if b, ok := x.Cond.(*ast.BinaryExpr); ok && b.Op == token.NEQ && strings.HasSuffix(types.ExprString(b.X), ".wt") && strings.HasSuffix(types.ExprString(b.Y), "WireTypeLengthDelimited") && returnsError(info, x.Body.List) {
+					wtTest = true
+				}
+			case *ast.RangeStmt:
+				if strings.HasSuffix(types.ExprString(x.X), ".data") {
+					oneToOne = true
+				}
+				// for i := range output, with output := make(.., len(fd.data))
+				if id, ok := x.X.(*ast.Ident); ok {
+					ast.Inspect(f.Decl.Body, func(m ast.Node) bool {
+						if as, ok := m.(*ast.AssignStmt); ok && len(as.Lhs) == 1 && len(as.Rhs) == 1 {
+							if l, ok := as.Lhs[0].(*ast.Ident); ok && (info.Defs[l] == info.Uses[id]) {
+								if strings.Contains(types.ExprString(as.Rhs[0]), "len(fd.data)") {
+									oneToOne = true
+								}
+							}
+						}
+						return true
+					})
+				}
+			}
+			return true
+		})
+		pos := prog.Pos(f.Pos())
+		r.Ob("A-ld", "(*FieldData)."+name+" tests the recorded wire type", pos, wtTest || usesSplit, "no `fd.wt != WireTypeLengthDelimited` error path: data recorded for a varint / fixed field is handed out as strings / bytes instead of the documented WireTypeMismatchError")
+		r.Ob("A-ld", "(*FieldData)."+name+" returns one element per occurrence", pos, oneToOne && !usesSplit, "the accessor goes through sliceValue, which walks inside each occurrence: an empty string / bytes occurrence yields no element, so the list is shorter than what was sent")
+	}
 }
